@@ -459,6 +459,9 @@ fn rty_coq(t: &str) -> Option<String> {
             if t.starts_with("[u8;") {
                 return Some("bytes".to_string());
             }
+            if bit_type(&t).is_some() {
+                return Some("Bitfield".to_string());
+            }
             if user().structs.contains_key(&t) || user().enums.contains_key(&t) {
                 return Some(t);
             }
@@ -495,6 +498,19 @@ fn self_ty_coq(imp: &str) -> Option<String> {
         "Arc<T>" | "&T" => "A_T".to_string(),
         _ => return None,
     })
+}
+
+/// `BitVector<typenum::U9>` / `BitList<typenum::U16>`: the translated impl's prefix and the capacity
+fn bit_type(t: &str) -> Option<(&'static str, String)> {
+    let t = t.replace(' ', "");
+    for (pre, name) in [("BitVector<typenum::U", "bitvector"), ("BitList<typenum::U", "bitlist")] {
+        if let Some(n) = t.strip_prefix(pre).and_then(|x| x.strip_suffix('>')) {
+            if !n.is_empty() && n.chars().all(|c| c.is_ascii_digit()) {
+                return Some((name, n.to_string()));
+            }
+        }
+    }
+    None
 }
 
 /// `(A,B,C)` with single upper-case type parameters as components
@@ -889,6 +905,10 @@ impl Cx {
         if let Some(k) = ty.strip_prefix("[u8;").and_then(|x| x.strip_suffix(']')) {
             return Ok(format!("array_{}_{} {}", short, m, k));
         }
+        if let Some((pre, n)) = bit_type(&ty) {
+            let name = format!("{}_{}_{}", pre, short, m);
+            return Ok(if self.res_fns.values().any(|v| *v == name) { format!("{} {}", name, n) } else if m == "ssz_fixed_len" { default_fixed_len.to_string() } else { return Err(format!("{} is not translated", name)) });
+        }
         if let Some(cs) = tuple_components(&ty) {
             let callee = format!("tuple{}_{}_{}", cs.len(), short, m);
             let args = self.tuple_dict_args(&callee, &cs)?;
@@ -936,6 +956,9 @@ impl Cx {
         }
         if let Some(k) = ty.strip_prefix("[u8;").and_then(|x| x.strip_suffix(']')) {
             return Ok(format!("(array_{} {})", m, k));
+        }
+        if let Some((pre, n)) = bit_type(&ty) {
+            return Ok(format!("({}_{} {})", pre, m, n));
         }
         if let Some(cs) = tuple_components(&ty) {
             let callee = format!("tuple{}_{}", cs.len(), m);
